@@ -36,8 +36,14 @@ variant('b-channel-drop-guard-payload-only', ['C07'], H + 'request_cahnnel_commo
         "elif self._received_complete and isinstance(frame, PayloadFrame):", ('C07.b', 'then ErrorFrame'))
 variant('b-ssreq-request-before-subscribe', ['C07'], H + 'request_stream_requester.py',
         """        super().subscribe(subscriber)
+
+        if self._terminated:
+            return  # cancelled from on_subscribe: the stream is never opened
+
+        self._requested = True
         self._send_stream_request(self.payload)
-""", """        self._send_stream_request(self.payload)
+""", """        self._requested = True
+        self._send_stream_request(self.payload)
         super().subscribe(subscriber)
 """, ('C07.c', 'RequestStreamRequester.subscribe'))
 variant('b-stopall-live-iteration', ['C07'], 'rsocket/stream_control.py',
@@ -185,20 +191,19 @@ variant('b-second-setup-on-lease', ['C08'], 'rsocket/rsocket_base.py',
 
 # ----------------------------------------------------------------------------------------------- C09
 variant('b-ssreq-cancel-twice', ['C09'], H + 'request_stream_requester.py',
-        """        self._terminated = True
-        self.send_cancel()
+        """            self.send_cancel()  # a stream the peer has never seen is not cancelled, only released
+
         self._finish_stream()
-""", """        self._terminated = True
-        self.send_cancel()
+""", """            self.send_cancel()  # a stream the peer has never seen is not cancelled, only released
+
         self._finish_stream()
         self.send_cancel()
 """, ('C09.a', 'RequestStreamRequester.cancel'))
 variant('b-ssreq-cancel-nofinish', ['C09', 'C10'], H + 'request_stream_requester.py',
-        """        self._terminated = True
-        self.send_cancel()
+        """            self.send_cancel()  # a stream the peer has never seen is not cancelled, only released
+
         self._finish_stream()
-""", """        self._terminated = True
-        self.send_cancel()
+""", """            self.send_cancel()  # a stream the peer has never seen is not cancelled, only released
 """, ('C', 'RequestStreamRequester.cancel'))
 variant('b-rrreq-cancel-after-terminal', ['C09'], H + 'request_response_requester.py',
         "        if future.cancelled() and not self._terminated:", "        if future.cancelled():",
@@ -2338,8 +2343,8 @@ variant_multi('b-stream-requester-registered-at-subscribe', ['C13'], [
         return self.register_new_stream(requester)""", """        requester = RequestStreamRequester(self, payload)
         requester.stream_id = self._allocate_stream()
         return requester"""),
-    ('rsocket/handlers/request_stream_requester.py', "        super().subscribe(subscriber)\n        self._send_stream_request(self.payload)",
-     "        super().subscribe(subscriber)\n        self.socket._register_stream(self.stream_id, self)\n        self._send_stream_request(self.payload)")],
+    ('rsocket/handlers/request_stream_requester.py', "        self._requested = True\n        self._send_stream_request(self.payload)",
+     "        self._requested = True\n        self.socket._register_stream(self.stream_id, self)\n        self._send_stream_request(self.payload)")],
     ('C13.i', 'RSocketBase.request_stream'))
 variant('t-register-new-stream-inlined', ['C13'], 'rsocket/rsocket_base.py',
         """        requester = RequestStreamRequester(self, payload)
@@ -2683,8 +2688,8 @@ variant('b-channel-cancel-ignored-before-setup', ['C10', 'C09'], H + 'request_ca
 
 # C08.l (F26, fixed ade6b24) an ended request-stream is silent
 variant('b-orig-f26-request-n-written-after-the-end', ['C08'], H + 'request_stream_requester.py',
-        "    def request(self, n: int):\n        if self._terminated:\n            return\n\n        self.send_request_n(n)\n",
-        "    def request(self, n: int):\n        self.send_request_n(n)\n", ('C08.l', 'request() and cancel() after it'))
+        "    def request(self, n: int):\n        if self._terminated:\n            return\n\n        if not self._requested:",
+        "    def request(self, n: int):\n        if not self._requested:", ('C08.l', 'request() and cancel() after it'))
 variant('b-requester-notes-the-end-after-telling-the-subscriber', ['C08'], H + 'request_stream_requester.py',
         "            if frame.flags_complete:\n                self._terminated = True  # before the subscriber is told: it may ask for more in on_next\n\n            if frame.flags_next:",
         "            if frame.flags_next:", ('C08.l', 'PayloadFrame[complete'),
@@ -2698,7 +2703,7 @@ variant_multi('b-requester-notes-the-end-when-it-releases-the-stream', ['C08'], 
      "            if frame.flags_complete:\n                self._terminated = True\n                self._finish_stream()\n        elif isinstance(frame, ErrorFrame):")],
     ('C08.l', 'PayloadFrame[complete'))
 variant('t-requester-end-flag-renamed', ['C08', 'C07', 'C09', 'C10', 'C13', 'C01'], H + 'request_stream_requester.py',
-        "_terminated", "_ended", kind='twin', count=6)
+        "_terminated", "_ended", kind='twin', count=7)
 
 # C08.l (F27, fixed 4e7e05a) an ended channel is silent
 variant('b-orig-f27-channel-request-n-written-after-the-end', ['C08'], H + 'request_cahnnel_common.py',
@@ -2758,3 +2763,14 @@ variant('b-connection-error-call-back-also-closes', ['C11'], 'rsocket/request_ha
         "    async def on_connection_error(self, rsocket, exception: Exception):\n        pass\n",
         "    async def on_connection_error(self, rsocket, exception: Exception):\n        await self.on_close(rsocket, exception)\n",
         ('C11.r', 'on_connection_error'))
+
+# C08.m (F28, stream requester fixed 965a694) nothing is written before the request frame
+variant('b-orig-f28-request-n-written-before-the-request-frame', ['C08', 'C06'], H + 'request_stream_requester.py',
+        "        if not self._requested:\n            # asked for from on_subscribe: the request frame, which has not been written yet, carries this credit\n            if n > 0:\n                self.initial_request_n(min(self._initial_request_n + n, MAX_REQUEST_N))\n\n            return\n\n",
+        "", ('C08.m', 'RequestStreamRequester.request'))
+variant('b-orig-f28-cancel-written-for-an-unopened-stream', ['C08'], H + 'request_stream_requester.py',
+        "        if self._requested:\n            self.send_cancel()  # a stream the peer has never seen is not cancelled, only released\n",
+        "        self.send_cancel()\n", ('C08.m', 'RequestStreamRequester.cancel'))
+variant('b-early-credit-dropped-instead-of-carried', ['C06'], H + 'request_stream_requester.py',
+        "            if n > 0:\n                self.initial_request_n(min(self._initial_request_n + n, MAX_REQUEST_N))\n\n            return\n",
+        "            return\n", ('C08.m', 'RequestStreamRequester.request'))
